@@ -317,3 +317,39 @@ theorem print_drops_line_without_file :
     toString { errorId := "x".toList, lineNumber := 5 } = "x".toList := by decide
 
 end Cppcheck.SuppressParse
+
+namespace Cppcheck.Suppress
+open Cppcheck.Wire
+
+/-- current code (since /repo f569efa, proposed/C23-sameparameters.diff): an entry is only rejected as "already exists" when the list holds an entry
+    that matches exactly the same findings: dropping it loses nothing -/
+theorem addSuppression_exists_harmless (l : List Suppr) (s : Suppr) (h : (addSuppressionG true l s).1 = .exists) :
+    ∃ s' ∈ l, ∀ env m, isSuppressed env s' m = isSuppressed env s m := by
+  unfold addSuppressionG at h
+  by_cases ha : l.any (isSameParametersG true s) = true
+  · obtain ⟨s', hs', hp⟩ := List.any_eq_true.1 ha
+    refine ⟨s', hs', fun env m => ?_⟩
+    simp only [isSameParametersG, Bool.not_true, Bool.false_or, Bool.and_eq_true, decide_eq_true_eq] at hp
+    obtain ⟨⟨⟨⟨⟨⟨h1, h2⟩, h3⟩, h4⟩, h5⟩, h6⟩, ⟨⟨h7, h8⟩, h9⟩, h10⟩ := hp
+    unfold isSuppressed symbolOk
+    rw [h1, h2, h3, h4, h5, h6, h7, h8, h9, h10]
+  · simp only [ha, Bool.false_eq_true, if_false] at h
+    repeat (split at h <;> try cases h)
+
+/-- found through C17's report, repaired by /repo f569efa; code before (`sfix = false`): `isSameParameters` ignored type / lineBegin / lineEnd, so the
+    block suppression built from `/* cppcheck-suppress-begin zerodiv */ … /* cppcheck-suppress-end zerodiv */` (lines 4–6)
+    was dropped as "already exists" when `// cppcheck-suppress zerodiv` sits on the line before the begin comment (both
+    get lineNumber 4); the finding on line 5, inside the documented block, was then matched by nothing; the current code
+    (`sfix = true`) keeps both entries -/
+theorem addSuppression_block_dropped_counterexample :
+    let env : Env := ⟨fun p f => p = f, id⟩
+    let u : Suppr := { errorId := "zerodiv".toList, fileName := "a.c".toList, lineNumber := 4, isInline := true }
+    let b : Suppr := { errorId := "zerodiv".toList, fileName := "a.c".toList, lineNumber := 4, lineBegin := 4, lineEnd := 6,
+                       type := .block, isInline := true }
+    let m : Msg := { errorId := "zerodiv".toList, fileName := "a.c".toList, lineNumber := 5 }
+    addSuppressionG false [u] b = (.exists, [u]) ∧ Spec.matchesB env b m = true ∧
+    (listIsSuppressed env true m [u]).1 = false ∧
+    addSuppressionG true [u] b = (.ok, [u, b]) ∧ (listIsSuppressed env true m [u, b]).1 = true := by
+  decide
+
+end Cppcheck.Suppress
